@@ -70,7 +70,8 @@ def ProgramMap.set (pm : ProgramMap) (pid num : Nat) : ProgramMap :=
 def accAdd (pm : ProgramMap) (pid : Nat) (q : List Packet) (p : Packet) : List Packet × List Packet :=
   if isSameAsPrevious q p && !pktDI p then ([], q)
   else
-    let q1 := if hasDiscontinuity q p then [] else q
+    -- a discontinuity announced by the first packet of a new unit does not concern what was accumulated: it is flushed below
+    let q1 := if hasDiscontinuity q p && !(p.header.payloadUnitStartIndicator && pktDI p && !isSameAsPrevious q p) then [] else q
     let (ps, q2) := if p.header.payloadUnitStartIndicator then (q1, []) else ([], q1)
     let q3 := q2 ++ [p]
     if (pid == 0 || pm.has pid) && isPSIComplete q3 then (q3, []) else (ps, q3)
